@@ -29,6 +29,18 @@ TIERS = {"quick": {"runs": 20000, "wall_cap": 240, "det_seeds": 12, "min_tests":
 
 
 def _connected_spec(rng):
+    if rng.random() < 0.02:
+        # dense: two nodes share 64-100 hyperedges of five nodes (pair weights of 256 and more)
+        import itertools
+
+        n = rng.randint(11, 13)
+        a, b = rng.sample(range(n), 2)
+        rest = [x for x in range(n) if x not in (a, b)]
+        triples = list(itertools.combinations(rest, 3))
+        rng.shuffle(triples)
+        edges = [[a, b] + list(t) for t in triples[: rng.randint(64, min(100, len(triples)))]]
+        edges += [[rest[i], rest[i + 1]] for i in range(len(rest) - 1)][: rng.randint(0, 3)]
+        return {"nodes": list(range(n)), "edges": edges, "labels": "int"}
     n = rng.randint(2, 8) if rng.random() < 0.8 else rng.randint(11, 16)
     nodes = list(range(n))
     edges, seen = [], set()
